@@ -79,7 +79,7 @@ def less_than_edge(cond):
 
 def rule_A(ck, name, f):
     key = 'amgcl::solver::' + name
-    rets = [n for n in f.nodes.values() if n['k'] == 'ret' and n.get('e') is not None]
+    rets = f.returns()
     ks = set()
     for r in rets:
         tup = None
@@ -221,7 +221,7 @@ def rule_B(ck, name, f, kdecl):
     al = alias_roots(f)
     rhs_d, A_d, x_d = f.params[2], f.params[0], f.params[3]
     # ---- B1: form of the reported value
-    rets = [n for n in f.nodes.values() if n['k'] == 'ret' and n.get('e') is not None]
+    rets = f.returns()
     R = N = None
     early, final = [], []
     for r in rets:
